@@ -9,6 +9,8 @@ package main
 //	agg table   <delim> <ops>                TableAggregator; ops = s:<hex> | t:<neg>:<cols>:<rows>:<lo>:<hi>, comma separated
 //	agg num     <keep> <rev> <hist> <qs>     MatchNumerical (bit-exact float64 results) + Analyze
 //	split <delim> <s> <n>                    stringSplitter.Splitter: n calls of Next with Done after each
+//	acc <opt> <rev> <ops>                    AccumulatingGroup (see c07acc.go)
+//	sorted <kind> <sorter> <count> <hist>    ItemsSortedBy / ItemsSorted / OrderedColumns+OrderedRows (see c07sorted.go)
 //
 // <hist> is a hex list of raw sample strings.  Everything that comes out of a Go map is sorted.
 // Every case is executed several times so that a dependence on Go's randomised map iteration
@@ -141,6 +143,8 @@ func c07RunNum(keep, rev bool, hist []string, qs []string) string {
 
 func c07RunOnce(f []string) string {
 	switch f[0] {
+	case "acc":
+		return c07AccRunOnce(f)
 	case "split":
 		n, _ := strconv.Atoi(f[3])
 		sp := stringSplitter.Splitter{S: string(UnHex(f[2])), Delim: string(UnHex(f[1]))}
@@ -199,6 +203,9 @@ func c07Run(f []string) (res string) {
 	reps := 0
 	if len(f) > 1 && f[1] == "table" {
 		reps = 5 // Go randomises map iteration per range statement
+	}
+	if f[0] == "acc" {
+		reps = 2 // Groups() ranges over a map before it sorts
 	}
 	for i := 0; i < reps; i++ {
 		if again := c07RunOnce(f); again != first {
@@ -407,6 +414,7 @@ func c07Gen(r *Rand, tier string) []string {
 		n = 30000
 	}
 	var out []string
+	out = append(out, c07AccGen(r, tier)...)
 	for i := 0; i < n; i++ {
 		out = append(out, "agg counter "+HexListS(c07Hist(r, "\x00", 1)))
 		out = append(out, "agg subkey "+HexListS(c07Hist(r, "\x00", 2)))
@@ -471,6 +479,10 @@ func c07Stats(cases []string) map[string]int {
 	st := map[string]int{}
 	for _, c := range cases {
 		f := strings.Fields(c)
+		if f[0] == "acc" {
+			c07AccStats(c, st)
+			continue
+		}
 		if f[0] == "split" {
 			st["op.split"]++
 			if len(UnHex(f[1])) > 1 {
@@ -541,5 +553,5 @@ var c07Corpus = []string{
 }
 
 func init() {
-	Register("C07", &Prop{Gen: c07Gen, Run: c07Run, Stats: c07Stats, Corpus: c07Corpus})
+	Register("C07", &Prop{Gen: c07Gen, Run: c07Run, Stats: c07Stats, Corpus: append(append([]string{}, c07Corpus...), c07AccCorpus...)})
 }
